@@ -151,6 +151,7 @@ class Obs:
         self.clen_ok = None     # HTTP only: Content-Length header equals the body sent
         self.how = ''           # 'http' | 'response' | 'declined' | 'httperror' | 'listing' | 'exception:<type>'
         self.audit = []
+        self.late_bytes = 0     # bytes written after the connection was closed (not delivered)
 
 
 class World:
@@ -242,7 +243,17 @@ class World:
             if range_header is not None:
                 req += b'Range: ' + range_header.encode('latin-1') + b'\r\n'
             w.feed(s, [req + b'\r\n'])
-            raw = w.written(s)
+            # what reaches the client: the writes up to the first close of this connection (on this tree HTTP answers
+            # a raising request handler twice - write, close, write, close; the second copy goes to a closed socket)
+            raw, closed = b'', False
+            for x in w.out:
+                if x[0] == 'close' and x[1] is s:
+                    closed = True
+                elif x[0] == 'write' and x[1] is s:
+                    if closed:
+                        o.late_bytes += len(x[2])
+                    else:
+                        raw += x[2]
         finally:
             s.close()
         o.how = 'http'
@@ -329,7 +340,11 @@ class World:
             o.status = int(value.status)
             o.how = 'response'
             o.headers = hdrs(value.headers)
-            o.body = collect(value.body)
+            try:
+                o.body = collect(value.body)
+            except Exception as e:     # the body generator raised: what a front end turns into a 500
+                o.status = 500
+                o.how = 'exception-in-body:%s' % type(e).__name__
         elif isinstance(value, (str, bytes)):
             o.status = int(res.status)
             o.how = 'listing'
@@ -395,9 +410,9 @@ def listing_matches(body, rel):
     return bool(names) and got <= entries and got >= visible
 
 
-def content_verdict(path, mount, dirlisting, tree, body):
+def content_verdict(path, mount, dirlisting, tree, body, fe='direct'):
     """Which inside object (if any) explains a 200 body for ``path``: ('file'|'default'|'listing', rel) or None."""
-    for cand in sorted(ref.denotations(path, mount, tree['root'])):
+    for cand in sorted(ref.denotations(path, mount, tree['root'], network_path=(fe == 'http'))):
         rel = '/'.join(cand)
         if rel in INSIDE and body == INSIDE[rel]:
             return ('file', rel)
@@ -432,6 +447,8 @@ def evaluate(world, case, neutral=False):
         header = case['prefix'] + case['sep'].join(case['specs']) if case['specs'] is not None else None
     o = world.request(case['fe'], case['layout'], neutral, mount, case.get('dirlisting', False), path, header)
     info['status'] = o.status
+    if o.late_bytes:
+        counters['bytes_written_after_close_ignored'] = 1
     counters[case['fe'] + '_requests'] = 1
     probs, evaluated = common_problems(world, o, tree, counters)
     info['evaluated'] = evaluated
@@ -445,7 +462,7 @@ def evaluate(world, case, neutral=False):
             counters['guard_redirect'] = 1
         if 200 <= o.status < 300:
             evaluated.append('CONTENT')
-            v = content_verdict(path, mount, case.get('dirlisting', False), tree, o.body) if o.status == 200 else None
+            v = content_verdict(path, mount, case.get('dirlisting', False), tree, o.body, case['fe']) if o.status == 200 else None
             if v is None:
                 probs.append(('CONTENT', {
                     'what': 'a %s answer whose body is not the inside object the normalised path denotes' % o.status,
@@ -453,7 +470,7 @@ def evaluate(world, case, neutral=False):
                     'escapes_root': esc, 'body': o.body[:60], 'how': o.how}))
             else:
                 counters['served_' + {'file': 'file', 'default': 'default_index', 'listing': 'listing'}[v[0]]] = 1
-                if esc:
+                if not esc and ref.climbs_out(path, mount, tree['root']):
                     counters['reenter_through_root_name'] = 1
                 if '%' in v[1]:
                     counters['percent_in_file_name'] = 1
@@ -530,69 +547,106 @@ def range_classes(case):
     return cls
 
 
-def triggers(case, neutral, tree):
-    """[(key, neutralised case, neutral flag)] for every known-finding trigger structurally present in ``case``."""
+def _is_malformed(t):
+    return not (_R_RANGE.match(t) or _R_SUFFIX.match(t) or re.match(r'^--[0-9]+$', t) or t == '-')
+
+
+def _respell(case, fn):
+    return dict(case, specs=[fn(s.strip(' \t')) for s in (case['specs'] or [])])
+
+
+def _n_mount(case, neutral):
+    # glued to the mount point: neutralised by putting the segment boundary back
+    m = case['mount']
+    return dict(case, path=m.rstrip('/') + '/' + case['path'][len(m):]), neutral
+
+
+def _n_contain(case, neutral):
+    # the path leaves the root: neutralised by making the tree compare against the root itself (World.env / World.tree)
+    return case, True
+
+
+def _n_malformed(case, neutral):
+    # RFC-equivalent respelling: every unparsable element becomes the (equally invalid) reversed spec 1-0
+    if '=' not in case['prefix'] or not case['specs']:
+        return dict(case, prefix='bytes=', specs=['1-0']), neutral
+    return _respell(case, lambda t: '1-0' if _is_malformed(t) else t), neutral
+
+
+def _n_clamp(case, neutral):
+    size = len(INSIDE[case['file']])
+
+    def f(t):
+        m = _R_RANGE.match(t)
+        if m and m.group(2) != '' and int(m.group(1)) < size <= int(m.group(2)):
+            return '%s-%d' % (m.group(1), size - 1)     # the same bytes, last-byte-pos spelt inside the file
+        return t
+    return _respell(case, f), neutral
+
+
+def _n_suffix_long(case, neutral):
+    size = len(INSIDE[case['file']])
+
+    def f(t):
+        m = _R_SUFFIX.match(t)
+        if m and int(m.group(1)) > size:
+            return '-%d' % size if size else '0-'       # the same selection: the whole file (nothing, if it is empty)
+        return t
+    return _respell(case, f), neutral
+
+
+def _n_suffix_nonpos(case, neutral):
+    size = len(INSIDE[case['file']])
+
+    def f(t):
+        m = _R_SUFFIX.match(t)
+        if m and int(m.group(1)) == 0:
+            return '%d-' % size        # equally unsatisfiable, spelt as a first-byte-pos at EOF
+        if re.match(r'^--[0-9]+$', t):
+            return '1-0'               # equally invalid
+        return t
+    return _respell(case, f), neutral
+
+
+def triggers(case, tree):
+    """[(key, neutraliser)] for every known-finding trigger structurally present in ``case``; a neutraliser maps
+    (case, neutral flag) to the twin in which only that trigger is respelt / reconfigured away."""
     out = []
     mount = case['mount']
     path = case['path']
     if mount not in (None, '/') and path.startswith(mount) and path != mount and not path.startswith(mount.rstrip('/') + '/'):
-        # glued to the mount point: neutralised by putting the segment boundary back
-        c2 = dict(case, path=mount.rstrip('/') + '/' + path[len(mount):])
-        out.append((K_MOUNT, c2, neutral))
+        out.append((K_MOUNT, _n_mount))
     if case['family'] == 'range':
-        size = len(INSIDE[case['file']])
-        specs = case['specs'] or []
-
-        def respell(fn):
-            return [fn(s.strip(' \t')) for s in specs]
-
-        def is_malformed(t):
-            return not (_R_RANGE.match(t) or _R_SUFFIX.match(t) or re.match(r'^--[0-9]+$', t) or t == '-')
-        if '=' not in case['prefix'] or any(is_malformed(s.strip(' \t')) for s in specs):
-            # RFC-equivalent respelling: every unparsable element becomes the (equally invalid) reversed spec 1-0
-            out.append((K_MALFORMED, dict(case, prefix='bytes=', specs=respell(lambda t: '1-0' if is_malformed(t) else t)), neutral))
-
-        def clamp(t):
-            m = _R_RANGE.match(t)
-            if m and m.group(2) != '' and int(m.group(1)) < size <= int(m.group(2)):
-                return '%s-%d' % (m.group(1), size - 1)
-            return t
-        if respell(clamp) != respell(lambda t: t):
-            out.append((K_CLAMP, dict(case, specs=respell(clamp)), neutral))
-
-        def bound_suffix(t):
-            m = _R_SUFFIX.match(t)
-            if m and int(m.group(1)) > size:
-                return '-%d' % size if size else '0-'
-            return t
-        if respell(bound_suffix) != respell(lambda t: t):
-            out.append((K_SUFFIX_LONG, dict(case, specs=respell(bound_suffix)), neutral))
-
-        def positive_suffix(t):
-            m = _R_SUFFIX.match(t)
-            if m and int(m.group(1)) == 0:
-                return '%d-' % size        # equally unsatisfiable, spelt as a first-byte-pos at EOF
-            if re.match(r'^--[0-9]+$', t):
-                return '1-0'               # equally invalid
-            return t
-        if respell(positive_suffix) != respell(lambda t: t):
-            out.append((K_SUFFIX_NONPOS, dict(case, specs=respell(positive_suffix)), neutral))
-    if case['fe'] == 'direct' and not neutral and ref.escapes_root(path, mount, tree['root']):
-        # the path leaves the root: neutralised by making this tree compare against the root itself
-        out.append((K_CONTAIN, case, True))
+        specs = [s.strip(' \t') for s in (case['specs'] or [])]
+        if '=' not in case['prefix'] or any(_is_malformed(t) for t in specs):
+            out.append((K_MALFORMED, _n_malformed))
+        for key, fn in ((K_CLAMP, _n_clamp), (K_SUFFIX_LONG, _n_suffix_long), (K_SUFFIX_NONPOS, _n_suffix_nonpos)):
+            if fn(case, False)[0]['specs'] != specs:
+                out.append((key, fn))
+    if case['fe'] == 'direct' and ref.escapes_root(path, mount, tree['root']):
+        # reach of the finding: locations that have the root's parent directory as a string prefix; an escape
+        # that ends anywhere else is not explained by it
+        if ref.resolved_location(path, mount, tree['root']).startswith(tree['root'].rsplit('/', 1)[0]):
+            out.append((K_CONTAIN, _n_contain))
     return out
 
 
-def explained(world, case, neutral, depth=0):
-    """True iff ``case`` satisfies every obligation, or what still fails is attributable (recursively, each step
-    neutralising exactly one more trigger that is structurally present) to known findings."""
-    probs, _ = evaluate(world, case, neutral)
-    if not probs:
-        return True
-    if depth >= 4:
-        return False
-    tree = world.tree(case['layout'], neutral)
-    return any(explained(world, c2, n2, depth + 1) for _k, c2, n2 in triggers(case, neutral, tree))
+def attribute(world, case):
+    """DESIGN.md 3.3: the smallest set of structurally present known-finding triggers whose neutralisation makes the
+    case satisfy every obligation (each member is then necessary: no smaller set suffices).  None if there is none -
+    the failure is not explained by known findings.  One trigger at a time first; sets of several only for compound
+    cases in which each remaining trigger keeps the case failing on its own."""
+    import itertools
+    trig = triggers(case, world.tree(case['layout'], False))
+    for size in range(1, len(trig) + 1):
+        for combo in itertools.combinations(range(len(trig)), size):
+            c2, n2 = case, False
+            for i in combo:
+                c2, n2 = trig[i][1](c2, n2)
+            probs, _ = evaluate(world, c2, n2)
+            if not probs:
+                return [trig[i][0] for i in combo]
+    return None
 
 
 # ------------------------------------------------------------------------------------------------
@@ -643,6 +697,8 @@ def path_features(case):
         f.add('encoded_dotdot')
     if '%252e' in low:
         f.add('double_encoded_dotdot')
+    if '%25' in low and '%252e' not in low:
+        f.add('double_encoded_other')
     if '%2f' in low or '%5c' in low:
         f.add('encoded_separator')
     if '\\' in p:
@@ -839,18 +895,22 @@ def run_one(world, b, case):
             b.ok(clause)
     if not probs:
         return
-    tree = world.tree(case['layout'], False)
-    cands = triggers(case, False, tree)
-    attributed = None
-    first = True
+    keys = None
+    twin_error = None
+    try:
+        keys = attribute(world, case)
+    except Exception:
+        twin_error = traceback.format_exc(limit=4)
     for clause, detail in probs:
-        if first:
-            known = [(k, (lambda c2=c2, n2=n2: explained(world, c2, n2, 1))) for k, c2, n2 in cands]
-            attributed = b.fail(case, clause, detail, known=known, dedup=dedup_of(case, clause, detail))
-            first = False
+        detail = dict(detail)
+        if keys:
+            detail['neutralised_in_passing_twin'] = keys
+            known = [(keys[0], lambda: True)]
         else:
-            known = [(attributed, lambda: True)] if attributed else []
-            b.fail(case, clause, detail, known=known, dedup=dedup_of(case, clause, detail))
+            known = []
+            if twin_error:
+                detail['twin_error'] = twin_error
+        b.fail(case, clause, detail, known=known, dedup=dedup_of(case, clause, detail))
 
 
 def dedup_of(case, clause, detail):
